@@ -164,6 +164,9 @@ def run(ctx):
                 # very short descriptions (the whole line is shorter than the longest announcement phrase)
                 prose, doc_class = ctx.rng.choice(["x", "On.", "Rate", "lr", "n."]), "very_short"
             typ, tc, value, dc = g.typ_and_default(name)
+            if i % 23 == 7:
+                # a string whose text is the word None, under a type that makes the codec quote it
+                typ, tc, value, dc = ctx.rng.choice([("str", "scalar_str"), ("Optional[str]", "optional_str"), ("Union[int, str]", "union_scalar")]) + ("None", "str_none_word")
             if value is IRGen.MISSING:
                 continue
             how = "set_default_doc" if i % 3 == 0 else PHRASES[(i // 3) % 4]
